@@ -64,6 +64,7 @@ impl SecondaryStorage {
             vacuum_handler: Mutex::new((None, None)),
             txn_mgr: Arc::new(TransactionManager::default()),
             indexes: Mutex::new(InMemoryIndexes::new()),
+            create_table_lock: Mutex::new(()),
         };
 
         info!("applying {} manifest entries", manifest_ops.len());
